@@ -65,7 +65,7 @@ func (f *Dolist) Call(s *slip.Scope, args slip.List, depth int) slip.Object {
 		}
 		sym = slip.Symbol(strings.ToLower(string(sym)))
 		// The list form is evaluated in the enclosing scope, before the variable exists.
-		switch t1 := s.Eval(input[1], d2).(type) {
+		switch t1 := firstValue(s.Eval(input[1], d2)).(type) {
 		case nil:
 			// leave list as empty list
 		case slip.List:
